@@ -76,6 +76,16 @@ open Scalar
 def crosscovEntry (x y : Nat → Nat → K) (N i j k : Nat) : K :=
   sumRange (N - k) (fun t => x i (t + k) *. conj (y j t)) /. ofNat (N - k)
 
+/-- exact embedding of an integer sample (int16 / int32 / int64 / uint8 recordings) into the scalar
+type: numpy converts the integer products to float64 before `mean`, and the output array of
+`crosscov_vector` is float64 (`np.empty((nc, nc, nlags))`), so nothing is truncated -/
+def ofIntK (z : Int) : K := if 0 ≤ z then ofNat z.toNat else neg (ofNat (-z).toNat)
+
+/-- `crosscov_vector(x, y, nlags)[i, j, k]` on integer-typed recordings: the lagged average of the
+EMBEDDED samples (same `crosscovEntry`) -/
+def crosscovEntryInt (xi yi : Nat → Nat → Int) (N i j k : Nat) : K :=
+  crosscovEntry (fun c t => ofIntK (xi c t)) (fun c t => ofIntK (yi c t)) N i j k
+
 end cov
 
 /-! ### model-order selection (`fit_model`) -/
@@ -99,6 +109,19 @@ def fitPass {α : Type} (gt : α → α → Bool) (c : Nat → α) (s : FitSt α
 def fitSelect {α : Type} (gt : α → α → Bool) (c : Nat → α) (maxOrder : Nat) : Option Nat :=
   let s := (List.range' 1 (maxOrder - 1)).foldl (fitPass gt c) ⟨none, none, false⟩
   if s.broke then s.lag else none
+
+/-- `fit_model(x1, x2, order, max_order, criterion)`: the order it REPORTS and the number of lags of
+`autocov_vector` it hands to `lwr_recursion`.
+* `order = some p` (`if order is not None`): `lag = order + 1`; `max_order` is not looked at
+  (whatever it is: smaller than, equal to, larger than `order`, or `None`).
+* `order = none`: the criterion loop over `range(1, max_order)`; the reported order is
+  `coef_new.shape[0]` of the accepted lag, i.e. `lag − 1`; `none` = `ValueError`.
+* `order = none, max_order = none`: `range(1, None)` is a `TypeError` (no result either). -/
+def fitPlan {α : Type} (gt : α → α → Bool) (c : Nat → α) (order maxOrder : Option Nat) : Option (Nat × Nat) :=
+  match order, maxOrder with
+  | some p, _ => some (p, p + 1)
+  | none, some mo => (fitSelect gt c mo).map fun lag => (lag - 1, lag)
+  | none, none => none
 
 /-! ### simulator -/
 
@@ -156,6 +179,17 @@ def bic (n : Nat) (ecov : Mat) (p m ntotal : Nat) : Float :=
 def aic (n : Nat) (ecov : Mat) (p m ntotal : Nat) : Float :=
   2.0 * Float.log (det2or n ecov) + (2.0 * (p * p).toFloat * m.toFloat) / ntotal.toFloat
 
+/-- `akaike_information_criterion(ecov, p, m, Ntotal, corrected=True)`:
+`AIC + (2·m·(m+1)) / (Ntotal − m − 1)` -/
+def aicc (n : Nat) (ecov : Mat) (p m ntotal : Nat) : Float :=
+  aic n ecov p m ntotal + (2 * m * (m + 1)).toFloat / (Float.ofInt ((ntotal : Int) - m - 1))
+
+/-- the criterion callables the correspondence passes (`bic` is the default of `fit_model`) -/
+def critVal (crit : String) (ecov : Mat) (m ntotal : Nat) : Float :=
+  if crit = "aic" then aic 2 ecov 2 m ntotal
+  else if crit = "aicc" then aicc 2 ecov 2 m ntotal
+  else bic 2 ecov 2 m ntotal
+
 def vsub (a b : List CF) : List CF := List.zipWith CF.sub a b
 def mact (n : Nat) (m : Mat) (v : List CF) : List CF :=
   (List.range n).map fun i => (List.range n).foldl (fun acc k => CF.add acc (CF.mul (Mat.entry m i k) (v.getD k ⟨0.0, 0.0⟩))) ⟨0.0, 0.0⟩
@@ -180,24 +214,34 @@ def crosscovSample (x y : Nat → Nat → CF) (N nlags : Nat) (pairs : List (Nat
 
 /-! ### `fit_model` on one pair, and `GrangerAnalyzer` re-targeted with `set_input` -/
 
-/-- `(lag, Rxx, coef, ecov)` of `fit_model` (`order = lag − 1`) -/
+/-- `(order, Rxx, coef, ecov)` as returned by `fit_model` (`order` = what it REPORTS) -/
 abbrev Fit := Nat × List Mat × List Mat × Mat
 
-/-- `fit_model(x1, x2, order, max_order, criterion)` on the two rows `zs` (`2 × N`);
-`order < 0` = `None`; `none` = `ValueError` -/
-def fitPair (crit : String) (order : Int) (maxo N : Nat) (zs : List CF) : Option Fit :=
+/-- a python `int or None` argument on the protocol line: negative = `None` -/
+def optNat (z : Int) : Option Nat := if z ≥ 0 then some z.toNat else none
+
+/-- `fit_model(x1, x2, order, max_order, criterion)` on the two rows `zs` (`2 × N`): the plan
+(`fitPlan`: reported order, number of lags), then `autocov_vector(vstack, nlags)` and `lwr_recursion`
+on exactly those lags; `none` = `ValueError` -/
+def fitPair (crit : String) (order maxo : Option Nat) (N : Nat) (zs : List CF) : Option Fit :=
   let fitLag (lag : Nat) := lwrCF 2 (autocovMats 2 N lag zs)
-  let out (lag : Nat) : Fit :=
-    let r := fitLag lag
-    (lag, autocovMats 2 N lag zs, r.1, r.2)
-  if order ≥ 0 then some (out (order.toNat + 1)) else
-  let c (lag : Nat) : Float :=
-    let r := fitLag lag
-    if crit = "aic" then aic 2 r.2 2 (lag - 1) (2 * N) else bic 2 r.2 2 (lag - 1) (2 * N)
-  (fitSelect (fun a b => decide (a > b)) c maxo).map out
+  let c (lag : Nat) : Float := critVal crit (fitLag lag).2 (lag - 1) (2 * N)
+  (fitPlan (fun a b => decide (a > b)) c order maxo).map fun pl =>
+    let r := fitLag pl.2
+    (pl.1, autocovMats 2 N pl.2 zs, r.1, r.2)
 
 def showFit (f : Fit) : String :=
-  s!"{f.1 - 1} " ++ showMats f.2.1 ++ " " ++ showMats f.2.2.1 ++ " " ++ showMats [f.2.2.2]
+  s!"{f.1} " ++ showMats f.2.1 ++ " " ++ showMats f.2.2.1 ++ " " ++ showMats [f.2.2.2]
+
+/-- integer-typed recordings `nc × N`, channel major -/
+def chanOfInt (nc N : Nat) (a : Array Int) : Nat → Nat → Int :=
+  fun i t => if i < nc ∧ t < N then a.getD (i * N + t) 0 else 0
+
+/-- `crosscov_vector(x, y, nlags)` on integer-typed recordings, as the list of lag matrices -/
+def crosscovMatsInt (nc N nlags : Nat) (xs ys : List Int) : List Mat :=
+  let x := chanOfInt nc N xs.toArray
+  let y := chanOfInt nc N ys.toArray
+  (List.range nlags).map fun k => Mat.ofFn nc nc fun i j => crosscovEntryInt x y N i j k
 
 /-- what a `GrangerAnalyzer` points at: the data of its input and the pair list -/
 structure GIn where
@@ -211,7 +255,7 @@ def GIn.row (d : GIn) (i : Nat) : List CF :=
 
 /-- `GrangerAnalyzer._model`: `fit_model(self.data[i], self.data[j], …)` for every pair of `ij`
 (the first `ValueError` propagates) -/
-def gFit (crit : String) (order : Int) (maxo : Nat) (d : GIn) : Option (List Fit) :=
+def gFit (crit : String) (order maxo : Option Nat) (d : GIn) : Option (List Fit) :=
   d.ij.mapM fun q => fitPair crit order maxo (d.data.size / d.nproc) (d.row q.1 ++ d.row q.2)
 
 /-- `S:<nproc>:<i0,j0,i1,j1,…>:<data>` = `GrangerAnalyzer(input)` / `set_input(input)`; `R` = read the model -/
@@ -250,9 +294,9 @@ def handle (args : List String) : String :=
       let r := marEstLWR (M := GSq CF nc) (fun k => rs.getD k (GMat.zeros nc)) order
       "ok " ++ showMats r.1 ++ " " ++ showMats [r.2]
     | _, _, _ => "bad-op"
-  | ["fit", crit, order, maxo, xs] => match order.toInt?, maxo.toNat?, parseCList? xs with
+  | ["fit", crit, order, maxo, xs] => match order.toInt?, maxo.toInt?, parseCList? xs with
     | some order, some maxo, some zs =>
-      match fitPair crit order maxo (zs.length / 2) zs with
+      match fitPair crit (optNat order) (optNat maxo) (zs.length / 2) zs with
       | some f => "ok " ++ showFit f
       | none => "err ValueError"
     | _, _, _ => "bad-op"
@@ -260,12 +304,16 @@ def handle (args : List String) : String :=
     | some tbl, some maxo, some zs =>
       -- a caller-supplied criterion that only looks at the order: c(lag) = tbl[lag - 1]
       let N := zs.length / 2
-      match fitSelect (fun a b => decide (a > b)) (fun lag => tbl.getD (lag - 1) 0.0) maxo with
-      | some lag =>
-        let r := lwrCF 2 (autocovMats 2 N lag zs)
-        s!"ok {lag - 1} " ++ showMats (autocovMats 2 N lag zs) ++ " " ++ showMats r.1 ++ " " ++ showMats [r.2]
+      match fitPlan (fun a b => decide (a > b)) (fun lag => tbl.getD (lag - 1) 0.0) none (some maxo) with
+      | some pl =>
+        let r := lwrCF 2 (autocovMats 2 N pl.2 zs)
+        s!"ok {pl.1} " ++ showMats (autocovMats 2 N pl.2 zs) ++ " " ++ showMats r.1 ++ " " ++ showMats [r.2]
       | none => "err ValueError"
     | _, _, _ => "bad-op"
+  | ["ccovi", nc, nl, xs, ys] => match nc.toNat?, nl.toNat?, parseIntList? xs, parseIntList? ys with
+    | some nc, some nl, some xs, some ys =>
+      if nc = 0 then "bad-op" else "ok " ++ showMats (crosscovMatsInt nc (xs.length / nc) nl xs ys)
+    | _, _, _, _ => "bad-op"
   | ["gmar", nc, as, nz] => match nc.toNat?, parseCList? as, parseCList? nz with
     | some nc, some azs, some nzs =>
       if nc = 0 then "bad-op" else
@@ -289,9 +337,9 @@ def handle (args : List String) : String :=
       let N := xs.length / nc
       "ok " ++ showCList (crosscovSample (chanOfReal nc N xs.toArray) (chanOfReal nc N ys.toArray) N nl (pairsOf prs))
     | _, _, _, _, _ => "bad-op"
-  | "gseq" :: crit :: order :: maxo :: toks => match order.toInt?, maxo.toNat?, toks.mapM parseGOp? with
+  | "gseq" :: crit :: order :: maxo :: toks => match order.toInt?, maxo.toInt?, toks.mapM parseGOp? with
     | some order, some maxo, some (.setInput d :: ops) =>
-      let outs := GrangerObj.run (gFit crit order maxo) (fun _ _ => ()) (fun _ => ()) ops
+      let outs := GrangerObj.run (gFit crit (optNat order) (optNat maxo)) (fun _ _ => ()) (fun _ => ()) ops
         (GrangerObj.construct d : GrangerObj.Obj GIn (List Fit) Unit Unit)
       "ok " ++ " ".intercalate (outs.flatMap showGOut)
     | _, _, _ => "bad-op"
